@@ -44,7 +44,7 @@ check('C08', 'Hypothesis-generated hostile and pooled inputs x options; strict o
 check('C15', 'Hypothesis-generated texts supplied in every input form, differential comparison of outputs, real CLI subprocess batches',
       'hypothesis-sharded',
       'Each sampled text is supplied as str (with/without final newline), list / tuple / iterator of lines with and without terminators, '
-      'StringIO, real file object, in-process CLI and (batched) a real python -m mistletoe subprocess on 1..8 files; all outputs must be byte-identical; texts with a pipe are evaluated a second time with the parse option Table.interrupt_paragraph toggled, and every form must follow the option; about 1 % of the texts are repeated to 8-66 KB, beyond the buffers through which files and pipes are read.',
+      'StringIO, real file object, in-process CLI and (batched) a real python -m mistletoe subprocess on 1..8 files; all outputs must be byte-identical; texts with a pipe are evaluated a second time with the parse option Table.interrupt_paragraph toggled, and every form must follow the option; about 1 % of the texts are repeated to 8-66 KB, beyond the buffers through which files and pipes are read; a quarter of the subprocess command lines name a file twice (same, relative or ./ spelling).',
       'Domain: \\n is the only line terminator (the characters at which str.splitlines splits but file iteration does not are excluded); NUL and other control characters are in. Sampling only.',
       'DESIGN.md 5/C15')
 
@@ -67,7 +67,7 @@ check('C17', 'Hypothesis-generated hostile and pooled inputs; LaTeX output scann
 check('C14', 'Hypothesis-generated paragraphs from a tricky-token vocabulary, filtered by an independent spec-derived inertness predicate; exact-output oracle',
       'hypothesis-sharded',
       'Paragraphs of 1-4 lines assembled from ~190 tricky-but-inert tokens, or from tokens composed freely out of letter runs, digit runs and any ASCII / Unicode punctuation, are kept when an own predicate (block-start patterns per line, '
-      'inline triggers over the paragraph, emphasis by the independent model) proves them inert; lines may be indented (continuation lines by four or more columns); about one paragraph in twenty begins with a line that looks like a link reference definition and provably is none; HtmlRenderer output must then be exactly '
+      'inline triggers over the paragraph, emphasis by the independent model) proves them inert; lines may be indented (continuation lines by four or more columns); about one paragraph in twenty begins with a line that looks like a link reference definition and provably is none; each paragraph is supplied as a string and as the list of its lines; HtmlRenderer output must then be exactly '
       '<p>escaped text</p>.',
       'Sampling only. The predicate is conservative (discards what it cannot prove inert; discard counts are in the evidence).',
       'DESIGN.md 5/C14')
@@ -85,7 +85,7 @@ check('C16', 'complete pair table of synthetic custom span tokens (Allen relatio
       'enumeration-pool + hypothesis-sharded',
       'All 10400 configurations of two custom token types are parsed at top level and again inside the parse group of a third custom token, '
       'and checked against an outcome table derived from the statement (asserted in 6800 unambiguous cells) and against tiling / order / '
-      'containment / confinement invariants (context left normally and by an exception); a token with three-character delimiters is run against every span inside it (4500 cases: nest in the parse group, otherwise precedence); a custom token whose only candidate starts at an escaped character is run against the built-in escape sequence (90 cases); random sets of up to 4 '
+      'containment / confinement invariants (context left normally, by an exception, and inside an enclosing renderer context); a token with three-character delimiters is run against every span inside it (4500 cases: nest in the parse group, otherwise precedence); a custom token whose only candidate starts at an escaped character is run against the built-in escape sequence (90 cases); random sets of up to 4 '
       'regex-based custom types over generated texts are checked against the invariants.',
       'Outcome is not asserted where the statement is silent (equal starts, container that does not parse inner). One recorded finding (match inside a closing delimiter) is excluded by its narrow class.',
       'DESIGN.md 5/C16')
